@@ -342,7 +342,83 @@ def unit_fs_create(clsname):
     return run
 
 
+class EphCreateModels(CreateModels):
+    def contract_for(self, ex, path, f, args, kw):
+        if f.qualname == '_add_ephemeral_service':
+            names = ['config', 'onion', 'progress', 'version', 'auth', 'await_all_uploads']
+            bound = dict(zip(names, args))
+            bound.update(kw)
+            self.glog_add(path, 'add_calls', bound)
+            return [(path, VOpaque('Deferred', 4300))]
+        return CreateModels.contract_for(self, ex, path, f, args, kw)
+
+
+def unit_eph_create(clsname):
+    """EphemeralOnionService.create / EphemeralAuthenticatedOnionService.create hand the caller's wishes to _add_ephemeral_service
+    unchanged - in particular whether to await all uploads - and complete only after it did"""
+    def run(ctx):
+        q = clsname + '.create'
+        ctx.fn(MODULE, q)
+        import txtorcon.onion as onion
+        ex = ctx.ex
+        path = ctx.new_path()
+        mi, node = extract.find(MODULE, q)
+        f = VFunc(node, MODULE, q, pyfunc=None)
+        progress = VUnion([(z3.Bool('has_progress'), VOpaque('progress_cb', 8800)), (z3.Not(z3.Bool('has_progress')), NONE)])
+        aa = VUnion([(z3.Bool('aa_none'), NONE), (z3.Not(z3.Bool('aa_none')), VBool(z3.Bool('aa_val')))])
+        cfg = VOpaque('config', 2)
+        kw = {'progress': progress, 'await_all_uploads': aa, 'version': VInt(z3.IntVal(3))}
+        auth = ex.new_inst(path, onion.AuthBasic)
+        path.heap[('f', auth.oid, '_clients')] = ex.new_dict(path, [(VStr(z3.String('client0')), NONE)])
+        if clsname == 'EphemeralAuthenticatedOnionService':
+            kw['auth'] = auth
+        ctx.cover('pre_satisfiable', path)
+        n_ok = 0
+        for p, r in ex.call(path, f, [VOpaque('reactor', 1), cfg, VOpaque('ports', 3)], kw):
+            calls = ctx.models.glog(p, 'add_calls')
+            awaited = [a[0] for a in ctx.models.glog(p, 'awaited')]
+            if isinstance(r, Raise):
+                continue
+            n_ok += 1
+            ok = len(calls) == 1
+            c = calls[0] if ok else {}
+            same = lambda x, y: x is y or (isinstance(x, VUnion) and isinstance(y, VUnion) and x.alts == y.alts) or \
+                (isinstance(x, VNone) and isinstance(y, VNone)) or (isinstance(x, (VBool, VInt)) and isinstance(y, (VBool, VInt)) and x.t.eq(y.t))
+            aa_seen = c.get('await_all_uploads', NONE)
+            if isinstance(aa_seen, VUnion) and same(aa_seen, aa):
+                g_aa = B(True)
+            elif isinstance(aa_seen, VNone):
+                g_aa = z3.Bool('aa_none')                   # only right on the paths where the caller passed None
+            elif isinstance(aa_seen, VBool):
+                g_aa = z3.And(z3.Not(z3.Bool('aa_none')), aa_seen.t == z3.Bool('aa_val'))
+            else:
+                g_aa = B(False)
+            ctx.oblige('post.the_wish_to_await_all_uploads_reaches_the_upload_wait', p, zand(B(ok), g_aa),
+                       clause='when asked to await all uploads: only once every attempted upload has either succeeded or failed')
+            pr_seen = c.get('progress', NONE)
+            if isinstance(pr_seen, VUnion) and same(pr_seen, progress):
+                g_pr = B(True)
+            elif isinstance(pr_seen, VNone):
+                g_pr = z3.Not(z3.Bool('has_progress'))
+            elif isinstance(pr_seen, VOpaque) and pr_seen.kind == 'progress_cb':
+                g_pr = z3.Bool('has_progress')
+            else:
+                g_pr = B(False)
+            ctx.oblige('post.service_progress_and_auth_handed_over_unchanged', p,
+                       zand(B(ok and c.get('config') is cfg and isinstance(c.get('onion'), VInst) and c.get('onion') is r
+                              and (c.get('auth', NONE) is auth if clsname == 'EphemeralAuthenticatedOnionService' else isinstance(c.get('auth', NONE), VNone))),
+                            g_pr))
+            ctx.oblige('post.completes_only_after_the_service_was_added', p,
+                       B(any(isinstance(x, VOpaque) and str(x.t) == '4300' for x in awaited)),
+                       clause='creation completes only after Tor reports a successful descriptor upload for that service')
+        if not n_ok:
+            ctx.oblige('some_normal_exit', path, B(False))
+    return run
+
+
 def make_models_for(unit_name):
+    if 'Ephemeral' in unit_name and '.create' in unit_name:
+        return EphCreateModels()
     if '.hostname@' in unit_name:
         return HostnameModels()
     return CreateModels() if '.create' in unit_name else O.OnionModels()
@@ -420,7 +496,8 @@ def units():
             for sc in (('present',), ('missing', 'present'), ('missing', 'missing', 'present'), ('present', 'missing'))] + \
         [('C15/hs_desc@%s' % k, unit_hs_desc(k)) for k in ('UPLOAD', 'UPLOADED', 'FAILED')] + \
         [('C15/hs_desc@%s/after_early_event' % k, unit_hs_desc(k, True)) for k in ('UPLOAD', 'UPLOADED', 'FAILED')] + [('C15/coroutine', unit_coroutine())] + \
-        [('C15/%s.create' % c, unit_fs_create(c)) for c in ('FilesystemOnionService', 'FilesystemAuthenticatedOnionService')]
+        [('C15/%s.create' % c, unit_fs_create(c)) for c in ('FilesystemOnionService', 'FilesystemAuthenticatedOnionService')] + \
+        [('C15/%s.create' % c, unit_eph_create(c)) for c in ('EphemeralOnionService', 'EphemeralAuthenticatedOnionService')]
 
 
 # ==========================================================================================
